@@ -140,6 +140,21 @@ def check(ix, rep):
         f_ = k_.methods.get('time_unit_transformer') if k_ is not None else None
         if f_ is not None:
             memo.check_method(ix, rep, k_, f_, 'converter')
+    # the samples computed with are the samples supplied (no conversion of the elements on entry)
+    from sa.rules import truthy as _te
+    _ne = 0
+    for _m in M.standard_monitors(ix):
+        if _m.kind == 'discrete-offline':
+            _de = ix.resolve_method(_m.cls, 'set_variable_to_ast_from_dataset')
+            if _de is None:
+                raise AnalysisError('set_variable_to_ast_from_dataset of %s vanished' % _m.kind)
+            rep.analysed(_de)
+            _ne += _te.check_entry_verbatim(ix, rep, _de, _m.kind)
+    rep.floor('data-entry stores', _ne, 1)
+    # what evaluate() returns is the last entry of ast.specs: every assertion is appended there, in the order of the text (an assertion
+    # that takes the slot of an earlier one with the same name makes an older formula the output)
+    from sa.props import c09 as _c09
+    _c09._visit_assertion(ix, rep)
     # 4. time-stamps never reach a handler; 5. output pairing
     pure.time_taint_offline(ix, rep, mon)
     pure.output_pairing(ix, rep, mon)
